@@ -1,6 +1,6 @@
 (* Proofs/C03_proofs.v — expiry and revocation are final, cascade, and are isolated. *)
 From Coq Require Import Lia ZArith List Bool.
-From Verif Require Import Lib.Base Lib.PyStr Model.Session Proofs.Session_proofs Proofs.C05a_proofs.
+From Verif Require Import Lib.Base Lib.PyStr Model.Session Proofs.Session_proofs Proofs.Session_gone Proofs.C05a_proofs.
 Import ListNotations.
 Open Scope Z_scope.
 
@@ -46,7 +46,7 @@ Lemma step_now c s o : now s <= now (fst (step c s o)).
 Proof.
   destruct o; cbn [step].
   - unfold do_authorize, do_authorize_at. repeat dm; subst; now_chain.
-  - unfold do_token_parse. repeat dm; cbn; lia.
+  - unfold do_token_parse. repeat dm; cbn [fst push_parsed now]; rewrite ?now_cascade; lia.
   - unfold do_refresh_parse. repeat dm; cbn; lia.
   - unfold do_process. repeat dm; cbn [fst]; try lia.
     + rewrite code_process_now. lia.
@@ -54,11 +54,11 @@ Proof.
   - unfold do_userinfo. repeat dm; cbn; lia.
   - unfold do_introspect. repeat dm; cbn; lia.
   - unfold do_revoke_ep. repeat dm; cbn; lia.
-  - unfold do_api_revoke. repeat dm; cbn; lia.
+  - unfold do_api_revoke_c, do_api_revoke. repeat dm; cbn [fst]; unfold sweep; rewrite ?now_sweep_p; cbn; lia.
+  - repeat dm; cbn [fst]; unfold sweep; rewrite ?now_sweep_p; cbn; lia.
+  - repeat dm; cbn [fst]; unfold sweep; rewrite ?now_sweep_p; cbn; lia.
   - repeat dm; cbn; lia.
-  - repeat dm; cbn; lia.
-  - repeat dm; cbn; lia.
-  - repeat dm; cbn; lia.
+  - repeat dm; cbn [fst]; unfold sweep; rewrite ?now_sweep_p; cbn; lia.
   - cbn. lia.
   - unfold do_authorize_cookie, do_authorize_at. repeat dm; subst; now_chain.
   - (* AuthorizeRT *) unfold do_authorize_rt, mint_if. cbv zeta. repeat dm; subst; now_chain.
@@ -87,7 +87,7 @@ Lemma userinfo_dead c s id g t : find_tok id s = Some (g, t) -> dead (now s) t -
 Proof.
   intros Hf D. unfold do_userinfo, resolve_as. rewrite Hf. unfold dead in D.
   destruct (t_cls t); cbn [tcls_eqb]; try (destruct (c_shared_key c); cbn; discriminate); try (cbn; discriminate).
-  destruct (g_removed g); [cbn; discriminate|]. rewrite D. cbn. discriminate.
+  destruct (g_removed g); [cbn; discriminate|]. destruct (t_gone t); [cbn; discriminate|]. rewrite D. cbn. discriminate.
 Qed.
 Lemma introspect_dead c s cl id g t : find_tok id s = Some (g, t) -> dead (now s) t ->
   forall sc cl' k, snd (do_introspect c s cl (TRef id)) <> OActive sc cl' k.
@@ -100,14 +100,14 @@ Lemma refresh_parse_dead c s cl id g t sc : find_tok id s = Some (g, t) -> dead 
 Proof.
   intros Hf D. unfold do_refresh_parse, resolve_as. rewrite Hf. unfold dead in D.
   destruct (t_cls t); cbn [tcls_eqb]; try (destruct (c_shared_key c); cbn; discriminate); try (cbn; discriminate).
-  destruct (g_removed g); [cbn; discriminate|]. rewrite D. cbn. discriminate.
+  destruct (g_removed g); [cbn; discriminate|]. destruct (t_gone t); [cbn; discriminate|]. rewrite D. cbn. discriminate.
 Qed.
 Lemma token_parse_dead c s cl id g t rd : find_tok id s = Some (g, t) -> dead (now s) t ->
   snd (do_token_parse c s cl (TRef id) rd) <> OOk.
 Proof.
   intros Hf D. unfold do_token_parse, resolve_as. rewrite Hf. unfold dead in D.
   destruct (t_cls t); cbn [tcls_eqb]; try (destruct (c_shared_key c); cbn; discriminate); try (cbn; discriminate).
-  destruct (g_removed g); [cbn; discriminate|].
+  destruct (g_removed g); [cbn; discriminate|]. destruct (t_gone t); [cbn; discriminate|].
   destruct (c_oidc c && negb (t_used t =? 0)); [cbn; discriminate|]. rewrite D. cbn. destruct (c_oidc c); discriminate.
 Qed.
 
@@ -350,7 +350,10 @@ Proof.
   intros Hg Ht Hh Hu. cbn [step]. rewrite Hg. destruct (existsb (live_user g) (grants s)) eqn:He; cbn [fst].
   - destruct (revoke_user_cascade s g k t h Ht Hh Hu) as (t'&Ht'&E&K).
     destruct (revoke_user_grant s g _ h Hh) as (h'&Hh'&R&_).
-    exists h', t'. split; [apply find_tok_intro; [exact Ht'|now rewrite E]|]. destruct K; [left|right]; congruence.
+    (* with remove_inactive_token the revoked tokens then leave their grants' lists: nothing else about them changes *)
+    destruct (sweep_p_tget c (in_user g s) _ k t' Ht') as (t''&Ht''&S). destruct S as (S1&_&_&_&_&_&_&_&S9&_).
+    exists h', t''. split; [apply find_tok_intro; [exact Ht''|rewrite grants_sweep_p; now rewrite S1, E]|].
+    destruct K as [K|K]; [left; now apply S9|right; congruence].
   - exists h, t. split; [now apply find_tok_intro|]. right. eapply no_live_user_removed; eauto.
 Qed.
 Theorem revoke_user_final c s gi g ops k t h :
@@ -371,7 +374,10 @@ Theorem revoke_user_isolation c s gi k t h :
 Proof.
   intros Ht Hh Hu. cbn [step]. destruct (nth_error (grants s) gi) as [g|] eqn:Hg; cbn [fst]; auto.
   specialize (Hu g eq_refl). destruct (existsb (live_user g) (grants s)); cbn [fst]; auto.
-  unfold tget, revoke_user, in_user, live_user in *; cbn. rewrite !nth_error_map, Ht, Hh; cbn. rewrite Hh, Hu. cbn. auto.
+  assert (Hin : in_user g s (t_grant t) = false) by (unfold in_user, live_user; now rewrite Hh, Hu).
+  split.
+  - apply sweep_p_other; [|exact Hin]. unfold tget, revoke_user in *; cbn. rewrite nth_error_map, Ht; cbn. now rewrite Hin.
+  - rewrite grants_sweep_p. unfold revoke_user; cbn. rewrite nth_error_map, Hh; cbn. unfold live_user. now rewrite Hu.
 Qed.
 (* the client-session revocation (logout from one client) seen as a step: same statement for the other branches *)
 Theorem revoke_client_step_isolation c s gi k t h :
@@ -382,5 +388,8 @@ Theorem revoke_client_step_isolation c s gi k t h :
 Proof.
   intros Ht Hh Hu. cbn [step]. destruct (nth_error (grants s) gi) as [g|] eqn:Hg; cbn [fst]; auto.
   specialize (Hu g eq_refl). destruct (existsb (live_branch g) (grants s)); cbn [fst]; auto.
-  unfold tget, revoke_branch, in_branch, live_branch in *; cbn. rewrite !nth_error_map, Ht, Hh; cbn. rewrite Hh, Hu. cbn. auto.
+  assert (Hin : in_branch g s (t_grant t) = false) by (unfold in_branch, live_branch; now rewrite Hh, Hu).
+  split.
+  - apply sweep_p_other; [|exact Hin]. unfold tget, revoke_branch in *; cbn. rewrite nth_error_map, Ht; cbn. now rewrite Hin.
+  - rewrite grants_sweep_p. unfold revoke_branch; cbn. rewrite nth_error_map, Hh; cbn. unfold live_branch. now rewrite Hu.
 Qed.
